@@ -30,6 +30,28 @@ type obsPeer struct {
 	inGate   atomic.Bool
 	nClose   atomic.Int32
 	closed   chan struct{} // closed after the first Close() reached the underlying peer
+	// authGate: IsLocal(), when called by realm.authClient, parks the attach
+	// goroutine until authRelease is closed (the history's Close/RemoveRealm
+	// has returned) or gateOpenAfter passed, and then reports false.
+	authGate    bool
+	authDone    atomic.Bool
+	authRelease chan struct{}
+}
+
+func (p *obsPeer) IsLocal() bool {
+	if p.authGate && !p.authDone.Load() && strings.HasSuffix(directCaller(), ".authClient") {
+		p.inGate.Store(true)
+		t := time.NewTimer(gateOpenAfter)
+		select {
+		case <-p.authRelease:
+		case <-t.C:
+		}
+		t.Stop()
+		p.authDone.Store(true)
+		p.inGate.Store(false)
+		return false
+	}
+	return p.Peer.IsLocal()
 }
 
 func newObsPeer(p wamp.Peer, gate bool) *obsPeer {
@@ -61,24 +83,31 @@ func (p *obsPeer) Send() chan<- wamp.Message {
 	return p.Peer.Send()
 }
 
-// calledFromAttach reports whether the function that called Send() is
-// (*router).AttachClient or (*realm).handleSession themselves (not one of
-// their closures, not the session handler).
-func calledFromAttach() bool {
+// directCaller returns the name of the router function that called the
+// peer method (skipping harness frames and method wrappers).
+func directCaller() string {
 	var pcs [16]uintptr
 	n := runtime.Callers(2, pcs[:])
 	fr := runtime.CallersFrames(pcs[:n])
 	for {
 		f, more := fr.Next()
 		name := f.Function
-		if strings.Contains(name, "concdrive.") || strings.HasSuffix(name, ".Send") {
+		if strings.Contains(name, "concdrive.") || strings.HasSuffix(name, ".Send") || strings.HasSuffix(name, ".IsLocal") {
 			if !more {
-				return false
+				return ""
 			}
 			continue
 		}
-		return strings.HasSuffix(name, ".AttachClient") || strings.HasSuffix(name, ".handleSession")
+		return name
 	}
+}
+
+// calledFromAttach reports whether the function that called Send() is
+// (*router).AttachClient or (*realm).handleSession themselves (not one of
+// their closures, not the session handler).
+func calledFromAttach() bool {
+	name := directCaller()
+	return strings.HasSuffix(name, ".AttachClient") || strings.HasSuffix(name, ".handleSession")
 }
 
 // holds are the harness-side schedule gates: messages held in the realm's
